@@ -491,12 +491,35 @@ example : ∃ (src : List Char) (p : Pos) (l : List Char) (c : Char),
   ⟨['a', '\n', ' ', ' ', 'x', '\n'], ⟨1, 2, 0, false⟩, [' ', ' ', 'x'], 'x', by decide, by decide, by decide⟩
 
 /-
+SECOND STAGE — proved in `Props/C18Composed.lean` / `Props/C18ComposedTs.lean` (wave 3): the driver model composed with
+the stage models (`CliComposed.stagesOf`: parser [abstract] → merge + built-ins → `ExtResolve.resolve` →
+`CheckTs.checkSchema`; parser → `Imports.resolveExt` → `Imports.resolve` → `CheckOp.checkOp`), for all projects:
+`C18_exit_iff_clean` (exit = 0 ⇔ every file parses, both resolvers succeed for every file, both checker models report
+nothing — the property's first sentence at the level of the stage MODELS applied to the input texts),
+`C18_exit_zero_implies_rules` / `C18_valid_project_exits_zero` (composition with C03 / C04 / C05),
+`C18_generate_gated_concrete`, `C18_diag_positions_from_ast` (no stage model invents a position),
+`C18_located_composed` (the hypothesis `WF` of `C18_located` above is a THEOREM for the composed stage models, given only
+that the parser stamps positions with the file index), `C18_human_total_composed`, `C18_ext_stage_files_named`,
+`C18_import_stage_files_named`, `C18_check_stage_files_named`.
+
 OPEN — carried by K/O only
-* exit = 0 ↔ "no fault was injected" at the level of the INPUT TEXTS (the property's first sentence) needs the
-  parser and the checkers; here it is the O clause `exit-iff` on the real binary.  At the level of stage results
-  it is `C18_exit_iff_faults`.
+* exit = 0 ↔ "no fault was injected" at the level of the INPUT TEXTS: the parsers stay abstract in the composed
+  theorems (any functions `file index → text → document | error`); that the real parsers are `Build.parseTs` /
+  `Build.parseOp` with positions re-stamped by the file index, produce no empty selection set and stamp every position
+  (`ParserStamps`) is C07 / C08 and the K streams, not a theorem here.  The glue of `stagesOf` (merge = concatenation
+  + built-ins, `Operations::new` keeps the last file of a path, imported definitions appended) mirrors main.rs /
+  check.rs by inspection; there is no K stream that feeds whole projects through `stagesOf` (the K stream of C18
+  feeds the REAL stage results to the driver model; each stage model has the K stream of its own property).
+* the stage models report `(kind, main position)`: the notes (`additional_info`) of the two checkers' diagnostics are not
+  in the models, so the composed diagnostics carry none for them (observed on the binary by K).
+* side conditions that stay hypotheses in the composed theorems: C03's `SchemaValid` of the resolved schema in
+  `C18_exit_zero_implies_operation_rules` / `C18_valid_*` (the schema check does not establish all of it — e.g. not
+  that root types exist: `C05_sound_knownTypes_counterexample`) and `ParserStamps` / "no empty selection set" of the
+  abstract parsers.  (`C18_located_composed` needs `ParserStamps` only: the part of `SchemaValid` it uses IS derived
+  from the schema check, `Lemmas/CliComposedChecked.lean`.)
 * "line/column at the start of a token": inherited from C07 (node positions are token starts); here it is the
-  O clause `located:not-token-start` with an independent lexer.
+  O clause `located:not-token-start` with an independent lexer.  (`C18_diag_positions_from_ast` reduces it to: node
+  positions of parsed documents are token starts.)
 * one well-formed JSON document on stdout; stdout/stderr separation; what the file system really contains after
   the run: observed on the binary (O clauses `json-wellformed`, `written-neq-listed`, `check-writes-files`, …).
 -/
